@@ -98,6 +98,20 @@ func genCondHist(r *rand.Rand, id string, tier string) string {
 		}
 		ops = append(ops, "err 0", "nnest 0", "ex "+stk(), "nnest 1", "ex "+stk())
 	}
+	if r.Intn(10) == 0 {
+		// the plainest Condition there is (string keyword, built-in operator, string expression), rendered with one set of
+		// encapsulation characters, then - nothing looked at in between - with another set of the same shape
+		one := []string{"\"", "'", "|", "`"}
+		two := [][2]string{{"<", ">"}, {"[", "]"}, {"(", ")"}}
+		a, b := r.Intn(len(one)), r.Intn(len(one))
+		p, q := r.Intn(len(two)), r.Intn(len(two))
+		ops = append(ops, "err 0", "kw "+V{T: 's', S: "mail"}.String(), fmt.Sprintf("op c%d", 1+r.Intn(6)), "ex "+V{T: 's', S: "val ue"}.String())
+		if r.Intn(2) == 0 {
+			ops = append(ops, "enc1 "+hx(one[a]), "reenc1 "+hx(one[b]), "reenc1 "+hx(one[a]))
+		} else {
+			ops = append(ops, "enc2 "+hx(two[p][0])+" "+hx(two[p][1]), "reenc2 "+hx(two[q][0])+" "+hx(two[q][1]), "reenc1 "+hx(one[a]))
+		}
+	}
 	for i, n := 0, r.Intn(maxOps+1); i < n; i++ {
 		switch r.Intn(14) {
 		case 0, 1:
